@@ -546,6 +546,41 @@ def main(tier):
                       "how": "8 goroutines released by a barrier call EncryptColumn.Value() on columns with the same 32-byte key; rerun the case "
                              "(a race: the number of duplicates varies, their existence does not on a multi-core machine)"})
     c.cov["concurrent_value_calls"] = conc
+    # (d'b) concurrent Value()/Scan() with per-goroutine verification: every goroutine has its own numeric type and value
+    # stream; each ciphertext is decrypted by the harness itself and must be the encoding of THAT goroutine's value, and
+    # Scan into a fresh column must give the value back with Valid = true (a plaintext buffer shared between calls would
+    # yield a valid ciphertext of somebody else's value).
+    GV, NV = 24, (50000 if full else 5000)
+    rc, outl, err = c.run_impl(binary, ["c18", "concv", str(GV), str(NV)], "")
+    summ = [l for l in outl if l.startswith("concv ")]
+    line = summ[0] if summ else "<missing> " + err[-300:]
+    kv = dict(x.split("=", 1) for x in line.split()[1:] if "=" in x)
+    recs = [l.split() for l in outl if l.startswith("rec ")]
+    rec_bad = [x for x in recs if len(x) != 4 or x[3] != "h" + enc_py(x[1], int(x[2])).hex()]
+    c.cov["concurrent_value_scan_verified"] = {"goroutines": GV, "iterations": NV, "calls": int(kv.get("total", 0)), "errors": kv.get("errors"),
+                                               "wrong_plaintext": kv.get("bad_pt"), "wrong_scan": kv.get("bad_scan"),
+                                               "sampled_plaintexts_rechecked_by_bigint_oracle": len(recs)}
+    cmd = "harness c18 concv %d %d" % (GV, NV)
+    if not summ or kv.get("errors") != "0" or int(kv.get("total", 0)) != GV * NV:
+        c.report("C18:value:concurrent", "concurrent Value()/Scan() calls failed or panicked: %s" % line[:300],
+                 {"kind": "input", "case": cmd, "implementation": line[:1000]})
+    elif kv.get("bad_pt") != "0" or kv.get("bad_scan") != "0" or rec_bad:
+        first = (kv.get("first") or "-").split(":")
+        first += ["?"] * (5 - len(first))
+        if first[0] == "-" and rec_bad:
+            x = rec_bad[0]
+            first = [x[1], x[2], enc_py(x[1], int(x[2])).hex(), x[3][1:] if len(x) > 3 else "?", "?"]
+        c.report("C18:value:concurrent",
+                 "concurrent Value() calls on distinct values: %s ciphertexts decrypt to another plaintext and %s Scans restore another value "
+                 "(of %s calls); e.g. %s %s: expected plaintext %s, decrypted %s, Scan gave %s"
+                 % (kv.get("bad_pt"), kv.get("bad_scan"), kv.get("total"), first[0], first[1], first[2], first[3], first[4]),
+                 {"kind": "input", "case": cmd, "goroutines": GV, "iterations_per_goroutine": NV,
+                  "first_mismatch_at_goroutine/iteration": kv.get("at"), "type": first[0], "value": first[1],
+                  "expected_plaintext_hex": first[2], "decrypted_plaintext_hex": first[3], "scan_result": first[4],
+                  "wrong_plaintexts": kv.get("bad_pt"), "wrong_scans": kv.get("bad_scan"), "implementation": line[:1000],
+                  "how": "24 goroutines (goroutine g: numeric type g mod 12, own value stream) released by a barrier; per call Value(), own AES-GCM "
+                         "decryption compared with the big-endian encoding of the goroutine's value, Scan into a fresh column; rerun the case "
+                         "(a race: counts vary)"})
     # (d'') structure of the nonces of SEQUENTIAL calls (all Value() calls of phase 1, in call order, one process).
     # The model takes the nonce from a random oracle (crypto/rand).  With S >= 100 independent uniform 12-byte strings,
     #   P(some byte position is constant over all samples)      <= 12 * 256^-(S-1)  <  10^-237,
